@@ -1,9 +1,13 @@
 (* Model/ParseM.v — IMAPClientCommand._parse / _parse_command / _p_* of asimap/parse.py as a
    Gallina function, mirroring the Python's control flow (which look-ahead decides which branch,
    in which order alternatives are tried, where an exception is caught).
-   The code modelled is /repo with the C08 fixes (exact INBOX, decoded quoted strings, ValueError ->
-   BadSyntax, search-key nesting limit, several STORE flags without parentheses, UNDRAFT).
-   Definitions only; proofs are in Proofs/ParseP.v. *)
+   The code modelled is /repo with the C08 fixes (fixes/C08-*.patch: exact INBOX, decoded quoted strings,
+   ValueError -> BadSyntax, search-key nesting limit, several STORE flags without parentheses) and
+   SEARCH UNDRAFT (fixes/C14-search-undraft.patch).
+   Not fixed, modelled as it is: the parser does not look at what follows a complete command
+   (known finding C08-trailing-text) — `parse` ignores the rest, `parse_strict` is a specification helper.
+   Definitions only; proofs are in Proofs/ParseP.v (completeness), ParseT.v (totality), ParseW.v / ParseS.v
+   (soundness). *)
 From Asimap Require Import Base.Res Base.Bytes Model.Lex Spec.Grammar.
 Open Scope Z_scope.
 Open Scope parser_scope.
